@@ -173,6 +173,15 @@ def check_theorems(pid):
 
 # ----------------------------------------------------------------------------- running suites
 
+def _unlimit_stack():
+    # the extracted model is not tail recursive: long inputs need a deep native stack
+    import resource
+    try:
+        resource.setrlimit(resource.RLIMIT_STACK, (resource.RLIM_INFINITY, resource.RLIM_INFINITY))
+    except (ValueError, OSError):
+        pass
+
+
 def run_sharded(binary, args, lines, shards, env=None, timeout=None):
     """feed request lines to `shards` copies of a line-in/line-out process; returns outputs in order"""
     n = len(lines)
@@ -181,7 +190,8 @@ def run_sharded(binary, args, lines, shards, env=None, timeout=None):
     procs = []
     for k in range(shards):
         chunk = lines[k * size:(k + 1) * size]
-        p = subprocess.Popen([binary] + args, stdin=subprocess.PIPE, stdout=subprocess.PIPE, stderr=subprocess.PIPE, env=env)
+        p = subprocess.Popen([binary] + args, stdin=subprocess.PIPE, stdout=subprocess.PIPE, stderr=subprocess.PIPE, env=env,
+                             preexec_fn=_unlimit_stack)
         procs.append((p, chunk))
     import threading
     results = [None] * len(procs)
